@@ -531,6 +531,25 @@ class SymVC:
     def sym_enum(self, name, cls):
         return self.ex.fresh_enum(cls, name)
 
+    def fresh_bool(self, hint):
+        """A new symbolic boolean each time it is called (nondeterministic environment choice)."""
+        return self.ex.fresh("bool", hint)
+
+    def fresh_int(self, hint):
+        return self.ex.fresh("int", hint)
+
+    def fresh_bytes(self, hint):
+        return self.ex.fresh("bytes", hint)
+
+    def raise_(self, cls, *args):
+        """Raise a Python exception into the interpreted program (for summaries)."""
+        raise I.PyExc(I.exc_obj(cls, *args))
+
+    def deque(self, items):
+        import collections
+
+        return SObj(collections.deque, {"_items": SList([lift(x) for x in items])})
+
     def case(self, label, options):
         """Concrete case split made by the contract (each option explored as its own path)."""
         options = list(options)
@@ -701,6 +720,7 @@ class NativeVC:
         self.assume_failed = False
         self.calls = []
         self._patches = []
+        self._counter = {}
 
     def _val(self, name, default):
         v = self.values.get(name, default)
@@ -741,6 +761,28 @@ class NativeVC:
 
     def sym_enum(self, name, cls):
         return cls(self._val(name, list(cls)[0].value))
+
+    def _fresh(self, hint, default):
+        n = self._counter.get(hint, 0)
+        self._counter[hint] = n + 1
+        return self._val(hint if n == 0 else f"{hint}#{n}", default)
+
+    def fresh_bool(self, hint):
+        return bool(self._fresh(hint, False))
+
+    def fresh_int(self, hint):
+        return self._fresh(hint, 0)
+
+    def fresh_bytes(self, hint):
+        return self._fresh(hint, b"")
+
+    def raise_(self, cls, *args):
+        raise cls(*args)
+
+    def deque(self, items):
+        import collections
+
+        return collections.deque(items)
 
     def case(self, label, options):
         options = list(options)
